@@ -185,6 +185,12 @@ def run(prog, rep):
     from .c01 import equivalence_discharge
     rep.attempt(no_stale_derived_state, prog, cd, rep)
     equivalence_discharge(prog, cd, rep, extra=("explicit-channel-honoured",))
+    # 'decode to exactly the values an independent decoder extracts': every field the decoder reads ends up in the attribute the
+    # encoder takes it from (a decoded word that is dropped - replaced by a constructor default - is a value the layout stores
+    # and this decoder does not return)
+    from .c01 import attr_linkage
+    for u in cd.units.values():
+        rep.attempt(attr_linkage, rep, cd, u, rule="decoded-values")
     # comments / labels reach the file unaltered only if the string writer refuses what does not fit instead of cutting it
     from .c13 import string_write_rules
     rep.attempt(string_write_rules, prog, rep)
